@@ -128,7 +128,7 @@ class Builtins:
                 return args[0][1][args[1][1]] if args[1][1] < len(args[0][1]) else UNK
             return None
         env_args = [('closure-env', cl[2]), arg]
-        it = Interp(self.prog, hook=hook, max_depth=depth, loop_bound=5)
+        it = Interp(self.prog, hook=hook, max_depth=depth, loop_bound=5, vec_model=True)
         # closure captures: field projections of the environment
         envv = ('tuple', tuple(cl[2]))
         try:
@@ -426,7 +426,7 @@ def r105(ctx, prog, B):
         calls = [(e[0], e[2]) for p in ps for e in p[1] if not e[0].startswith('<')]
         lens = {c for c, a in calls if c.endswith('::len') and ('String' in c or 'str' in c)}
         slicers = {c.split('::')[-1] for c, a in calls if 'str' in c and c.split('::')[-1] in ('get', 'index', 'get_unchecked', 'chars', 'char_indices')}
-        ctx.check(lens == {'std::string::String::len'} and slicers == {'get'}, 'R10.5', 'str::substring:unit', 'unit', 'str::substring measures with String::len (the unit of `len`) and slices with the non-panicking str::get (len calls %s, slicing %s)' % (sorted(lens), sorted(slicers)))
+        ctx.check(bool(lens) and lens <= {'std::string::String::len', 'core::str::<impl str>::len'} and slicers == {'get'}, 'R10.5', 'str::substring:unit', 'unit', 'str::substring measures with String::len (the unit of `len`) and slices with the non-panicking str::get (len calls %s, slicing %s)' % (sorted(lens), sorted(slicers)))
         oob = [p for p in ps if is_adt(p[0], 'result::Result', 'Err') and is_adt(p[0][4][0], 'error::EvalexprError', 'OutOfBoundsAccess')]
         ctx.check(len(oob) >= 2, 'R10.5', 'str::substring:bounds', 'bounds', 'out-of-range or non-boundary indices are OutOfBoundsAccess (%d error paths)' % len(oob))
 
